@@ -1,12 +1,11 @@
 import VibeProof.Props.C30
 #print axioms VibeProof.C30.C30_quote_roundtrip
-#print axioms VibeProof.C30.C30_structure_partial
-#print axioms VibeProof.C30.C30_placeholder_in_literal_counterexample
-#print axioms VibeProof.C30.C30_negative_after_minus_counterexample
-#print axioms VibeProof.C30.C30_string_before_quote_counterexample
-#print axioms VibeProof.C30.C30_structure_counterexample
+#print axioms VibeProof.C30.C30_structure
+#print axioms VibeProof.C30.C30_placeholder_in_literal
+#print axioms VibeProof.C30.C30_negative_after_minus
+#print axioms VibeProof.C30.C30_string_before_quote
 #print axioms VibeProof.C30.C30_history_counterexample
 #print axioms VibeProof.C30.C30_count_unchecked_on_hit
 #print axioms VibeProof.C30.C30_history_independent_boundKey
 #print axioms VibeProof.C30.C30_full_counterexample
-#print axioms VibeProof.C30.C30_bool_binds_as_int
+#print axioms VibeProof.C30.C30_bool_binds_as_bool
